@@ -1576,8 +1576,27 @@ class Interp:
         return env
 
     def st_Expr(self, s, env, ctx):
+        v = s.value
+        if isinstance(v, ast.Call) and len(v.args) == 2 and isinstance(v.args[0], ast.Name) and not any(isinstance(a, ast.Starred) for a in v.args) and \
+                all(k.arg == "where" for k in v.keywords) and len(v.keywords) <= 1 and self.prog.canon(self._dotted_in(v.func, ctx)) == "numpy.copyto":
+            # np.copyto(dst, src, where=mask) is the statement dst[mask] = src[mask] (dst[...] = src without a mask): read as that store by every domain
+            if v.keywords:
+                m = v.keywords[0].value
+                st = ast.Assign([ast.Subscript(v.args[0], m, ast.Store())], ast.Subscript(v.args[1], m, ast.Load()))
+            else:
+                st = ast.Assign([ast.Subscript(v.args[0], ast.Constant(Ellipsis), ast.Store())], v.args[1])
+            ast.copy_location(st, s)
+            ast.fix_missing_locations(st)
+            return self.st_Assign(st, env, ctx)
         self.ev(s.value, env, ctx)
         return env
+
+    def _dotted_in(self, node, ctx):
+        """the dotted name an expression like np.copyto stands for in this module (import aliases resolved), or ''"""
+        d = dotted_of(node) or ""
+        head, _, rest = d.partition(".")
+        base = ctx.mod.imports.get(head) if hasattr(ctx.mod, "imports") else None
+        return (base + ("." + rest if rest else "")) if base else d
 
     def st_Pass(self, s, env, ctx):
         return env
